@@ -32,7 +32,7 @@ INC     := -I$(BUILD)/cfg/include -I$(UFW_SRC)/include
 CFLAGS  := -std=gnu99 $(COMMON) $(INC) -Wall -Wextra -Wno-unused-parameter
 # ufw/compat/ssize-t.h has an unbalanced extern "C" brace under C++ when sys/types.h exists: bypass it
 CXXFLAGS:= -std=gnu++17 $(COMMON) $(INC) -I$(ROOT)/sim -DINC_UFW_UFW_COMPAT_SSIZE_T_H -include sys/types.h -include limits.h -include stdint.h -Wall -Wextra -Wno-unused-parameter -Wno-missing-field-initializers -Wno-c99-designator -Wno-unused-function -Wno-misleading-indentation
-LDFLAGS := $(SAN) -lm
+LDFLAGS := $(SAN) -lm $(EXTRA_LDFLAGS)
 
 LIBSRC := allocator.c crc-16-arc.c endpoints/buffer.c endpoints/continuable-sink.c endpoints/core.c \
           endpoints/instrumentable.c endpoints/trivial.c length-prefix.c byte-buffer.c persistent-storage.c \
